@@ -65,7 +65,7 @@ def equivalent(utype, a, b):
 
 ACCESSORS = ["ham_new", "ham_assign", "faxis", "mol_new", "mol_set_energy", "mol_width", "mode_new", "mode_set_energy",
              "agg_coupling", "agg_coupling_matrix", "cf_reorg", "sd_reorg", "length", "ham_rwa", "mol_adiabatic", "submode", "ham_inplace",
-             "mol_ham", "mol_vib_ham", "ham_diag", "ham_undiag", "dfun_spline"]
+             "mol_ham", "mol_vib_ham", "ham_diag", "ham_undiag", "dfun_spline", "mol_diabatic"]
 LIBCALLS = ["agg_build", "agg_build_env", "agg_build_raises", "agg_rebuild", "get_Hamiltonian", "relaxation_tensor", "rate_matrix",
             "set_rwa", "time_to_frequency_axis", "frequency_to_time_axis", "thermal_state", "molecule_hamiltonian",
             "cf_add", "sd_from_cf", "ft_cf", "abs_calculate", "propagate", "diagonalize", "convert",
@@ -609,6 +609,15 @@ class Runner:
                 fa = qr.FrequencyAxis(v, 24, v / 40.0)
                 obj = qr.DFunction(fa, numpy.cos(numpy.arange(24) / 4.0))
                 store = e
+            elif name == "mol_diabatic":
+                # one descriptor list of the caller used for two couplings (the usual way of writing it)
+                obj = qr.Molecule([0.0, 1.0, 1.2])
+                obj.add_Mode(qr.Mode(frequency=0.05))
+                fac = [v, [1]]
+                obj.set_diabatic_coupling((0, 1), fac)
+                obj.set_diabatic_coupling((1, 2), fac)
+                check(fac[0] == v, "caller-argument-changed", lambda: "op %d: set_diabatic_coupling changed the caller's list to %r" % (i, fac))
+                store = e
             elif name == "mol_new":
                 obj = qr.Molecule([0.0, v])
                 store = e
@@ -739,6 +748,9 @@ class Runner:
             elif name in ("mol_new", "mol_set_energy"):
                 got = obj.get_energy(1)
                 exp = float(from_internal(u, e))
+            elif name == "mol_diabatic":
+                got = numpy.array([obj.get_diabatic_coupling((0, 1))[0][0], obj.get_diabatic_coupling((1, 2))[0][0]])
+                exp = numpy.array([float(from_internal(u, e))] * 2)
             elif name == "dfun_spline":
                 import scipy.interpolate
                 xs = e + (e / 40.0) * numpy.arange(24)
